@@ -430,6 +430,21 @@ func DrawPrice(t *rapid.T) string {
 	return fmt.Sprintf("%d.%0*d", rapid.IntRange(0, 999).Draw(t, "pi"), 4, rapid.IntRange(1, 9999).Draw(t, "pf"))
 }
 
+// Reciprocal8 is 1/p cut off after 8 decimals ("" when p is not a positive number or the result is 0).
+func Reciprocal8(p string) string {
+	r, ok := new(big.Rat).SetString(p)
+	if !ok || r.Sign() <= 0 {
+		return ""
+	}
+	q := new(big.Int).Quo(new(big.Int).Mul(big.NewInt(100000000), r.Denom()), r.Num())
+	if q.Sign() == 0 {
+		return ""
+	}
+	s := fmt.Sprintf("%09d", q)
+	out := strings.TrimRight(s[:len(s)-8]+"."+s[len(s)-8:], "0")
+	return strings.TrimSuffix(out, ".")
+}
+
 func (h *History) emitPrice(i int) {
 	// declare the edge between coms[i] and its parent, in either direction
 	if h.parent[i] < 0 || h.never[i] {
@@ -450,6 +465,13 @@ func (h *History) emitPrice(i int) {
 	if last, ok := h.lastPrice[i]; ok && rapid.IntRange(0, 2).Draw(t, "repeatQuote") == 0 {
 		// the same quote again (holiday carry-over, pegged currency)
 		d.Com, d.Target, d.Price = last.Com, last.Target, last.Price
+	}
+	if last, ok := h.lastPrice[i]; ok && rapid.IntRange(0, 3).Draw(t, "reciprocalQuote") == 0 {
+		// the pair quoted the other way round at exactly the 8-digit reciprocal of the last quote (a user copying
+		// the inverse rate their bank prints): the stored inverse edge keeps its value while the direct one moves
+		if r := Reciprocal8(last.Price); r != "" {
+			d.Com, d.Target, d.Price = last.Target, last.Com, r
+		}
 	}
 	if h.lastPrice == nil {
 		h.lastPrice = map[int]ref.Directive{}
